@@ -14,18 +14,20 @@ Definition table := list N.
 Definition mem (n : N) (t : table) : bool := existsb (N.eqb n) t.
 Record gstate := { g_base : table; g_exper : table }.
 
-(* options are applied in order to the clone; the first failing option aborts the compile
-   (errors: 1 bad signature, 2 name exists, 3 second transform) *)
-Fixpoint apply_opts (g : gstate) (t : table) (transform : bool) (os : list copt) : N + table :=
+(* every option is applied, in order, to the clone; the errors are joined (opts.ApplyOptions), so a compile fails
+   when any option failed: a name that already exists, a bad signature, a second transform.  A failed AddFunction
+   adds nothing. *)
+Fixpoint apply_all (g : gstate) (t : table) (transform failed : bool) (os : list copt) : bool * table :=
   match os with
-  | [] => inr t
+  | [] => (failed, t)
   | OAddFn n ok :: r =>
-      if mem n t then inl 2%N else if negb ok then inl 1%N else apply_opts g (n :: t) transform r
-  | OExperimental :: r => apply_opts g (t ++ filter (fun n => negb (mem n t)) (g_exper g)) transform r
-  | OPermissive :: r => apply_opts g t transform r
-  | OTransform :: r => if transform then inl 3%N else apply_opts g t true r
+      if mem n t || negb ok then apply_all g t transform true r else apply_all g (n :: t) transform failed r
+  | OExperimental :: r => apply_all g (t ++ filter (fun n => negb (mem n t)) (g_exper g)) transform failed r
+  | OPermissive :: r => apply_all g t transform failed r
+  | OTransform :: r => if transform then apply_all g t true true r else apply_all g t true failed r
   end.
-(* Register looks the name up before it checks the signature *)
+Definition apply_opts (g : gstate) (t : table) (transform : bool) (os : list copt) : N + table :=
+  let '(failed, t') := apply_all g t transform false os in if failed then inl 1%N else inr t'.
 Definition compile (g : gstate) (os : list copt) : gstate * (N + table) := (g, apply_opts g (g_base g) false os).
 Fixpoint run_history (g : gstate) (h : list (list copt)) : gstate * list (N + table) :=
   match h with
